@@ -72,6 +72,8 @@ def loop_nodes(L):
         cur = "i" if j == 0 else f"{src}[2]"
         params = [src]
         n = {"k": "func", "name": f"b{j}", "defaults": {}}
+        if form == "signal" and L.get("two_signals") and j == 0:
+            n["emit"] = ["early"]  # produced at the START of every iteration; the gate needs it AND the final tick to be fresh
         if waitlast and j == 0:
             n["emit"] = ["s0"]
         if waitlast and j == k - 2:
@@ -90,7 +92,7 @@ def loop_nodes(L):
                 n["outs"] = ["i"]
                 n["expr"] = e_i
             if form == "signal":
-                n["emit"] = ["tick"]
+                n["emit"] = n.get("emit", []) + ["tick"]
         else:
             n["outs"] = [f"t{j}"]
             n["expr"] = f"('t', {j}, {cur})"
@@ -105,7 +107,7 @@ def loop_nodes(L):
         g["params"] = ["i"] + lim_in
         cond = f"i < {lim}"
         if form == "signal":
-            g["wait_for"] = ["tick"]
+            g["wait_for"] = ["early", "tick"] if L.get("two_signals") else ["tick"]
     if L["gate"] == "ifelse":
         g.update({"k": "ifelse", "t": "b0", "f": stop, "expr": cond})
     else:
@@ -113,6 +115,8 @@ def loop_nodes(L):
     nodes.append(g)
     if L["exit"] == "node":
         nodes.append({"k": "func", "name": "done", "params": ["i"], "defaults": {}, "outs": ["res"], "expr": "('done', i)"})
+    if L.get("nullable"):
+        nodes.append({"k": "func", "name": "zf", "params": ["z", "i"], "defaults": {}, "outs": ["z"], "expr": "None if i % 2 == 1 else (z, i)"})
     if L.get("acc"):
         nodes.append({"k": "func", "name": "nxt", "params": ["i"], "defaults": {}, "outs": ["item"], "expr": "('item', i)"})
         nodes.append({"k": "func", "name": "acc", "params": ["acc", "item"], "defaults": {}, "outs": ["acc"], "expr": "acc + (item,)"})
@@ -156,6 +160,8 @@ def loop_values(L):
             vals["x"] = L["limit"] - L.get("limit_off", 0) + 100  # would give a different limit if mk_limit ran
     if L.get("acc"):
         vals["acc"] = ()
+    if L.get("nullable"):
+        vals["z"] = ("seed",)
     if L["form"] == "selfsignal":
         vals["tot"] = ()
     if L["form"] == "chat":
@@ -256,6 +262,14 @@ def eval_loop(L):
         traj["acc"] = [tuple(("item", v) for v in traj["i"][: n + 1]) for n in range(len(traj["i"]))] + [()]
         counts["nxt"] = len(traj["i"])
         counts["acc"] = len(traj["i"])
+    if L.get("nullable"):
+        z = ("seed",)
+        traj["z"] = [z]
+        for v in traj["i"]:
+            z = None if v % 2 == 1 else (z, v)
+            traj["z"].append(z)
+        env["z"] = z
+        counts["zf"] = len(traj["i"])
     if L.get("pre_entry") and not L.get("nested"):
         env["limit"] = limit  # caller-supplied value of a declared output name stays visible
         traj["limit"] = [limit]
